@@ -6,12 +6,17 @@ From L2 Require Import Model Base Own Jobs Shape DwInv Fut Wake Task.
 #[global] Unset Lia Cache.
 
 (* ---------- the programs ---------- *)
-Definition sigfreeb (body : list fprim) : bool := forallb (fun p => match p with PSignal _ => false | _ => true end) body.
+(* PSendReady / PAwaitDone are the prims of the slot job of future_sync (never part of a user body) *)
+Definition sigfreeb (body : list fprim) : bool :=
+  forallb (fun p => match p with PSignal _ | PSendReady _ | PAwaitDone _ => false | _ => true end) body.
 Definition awaitb (o : cop) : bool := match o with ODesync => true | OFuture body UAwait | OFuture body UDetach => sigfreeb body | _ => false end.
 Definition fireb (o : cop) : bool := match o with OFire _ => true | _ => false end.
 (* a job script signals only with its last prim *)
 Fixpoint wfsc (sc : list fprim) : bool :=
-  match sc with [] => true | [_] => true | p :: r => match p with PSignal _ => false | _ => wfsc r end end.
+  match sc with
+  | [] => true
+  | p :: r => match p with PSendReady _ | PAwaitDone _ => false | PSignal _ => match r with [] => true | _ => false end | _ => wfsc r end
+  end.
 Definition wfjob (j : job) : bool := match j with JPlain _ => true | JFut _ _ sc => wfsc sc | JSync _ _ _ => false end.
 (* frames the awaiting caller may have / frames the firing callers may have *)
 Definition ok0 (fr : frame) : bool :=
